@@ -4,7 +4,7 @@ from __future__ import annotations
 from sim import graphgen as gg
 from sim import schedrun as sr
 from sim import taskfns
-from sim.core import Outcome
+from sim.core import Outcome, dg
 
 META = {
     "level": "exploration",
@@ -130,9 +130,81 @@ def run_one_threads(tape, cfg, out):
     return out
 
 
+def _inc(x):
+    return x + 1
+
+
+def _nested_get(j):
+    """A task that itself calls the threaded scheduler with default arguments."""
+    import dask.threaded as dt
+
+    return dt.get({("in", j, 0): (_inc, j), ("in", j, 1): (_inc, ("in", j, 0))}, ("in", j, 1))
+
+
+def run_nested(tape, cfg, out):
+    """E2: tasks that call dask.threaded.get themselves (nested scheduler calls), with the default
+    pool no larger than the number of such tasks, so that every pool thread can be blocked in an
+    outer task while the inner graphs still have to run.  threaded.get's own pool selection
+    (default_pool / per-thread pools / main_thread test) is the real code; only the pool class and
+    CPU_COUNT are replaced."""
+    import threading
+
+    import dask.threaded as dt
+    from sim.simthreads import SimThreadPool, SimThreads
+
+    with tape.span("nested"):
+        nouter = 2 + tape.draw(3, "nouter")
+        cpu = 1 + tape.draw(nouter, "cpu")
+        policy = tape.choice(SimThreads.POLICIES, "policy")
+    wl = {"nested_get": True, "outer_tasks": nouter, "default_pool_size": cpu, "policy": policy}
+    out.decoded = wl
+    out.wdigest = dg(wl)
+    out.policy = policy
+    out.klass = "nested"
+    out.probe("nested_scheduler_calls")
+    sched = SimThreads(tape, policy=policy, step_cap=40000)
+    saved = (dt.ContextAwareThreadPoolExecutor, dt.CPU_COUNT, dt.default_pool, dt.main_thread)
+    saved_pools = dict(dt.pools)
+    dt.pools.clear()
+    dt.ContextAwareThreadPoolExecutor = lambda nw=None: SimThreadPool(sched, nw or cpu)
+    dt.CPU_COUNT = cpu
+    dt.default_pool = None
+    box = {}
+    outer = {("o", j): (_nested_get, j) for j in range(nouter)}
+    outer["sum"] = (sum, [("o", j) for j in range(nouter)])
+    try:
+        with sched:
+            def client():
+                dt.main_thread = threading.current_thread()     # the caller of the outer get
+                box["v"] = dt.get(outer, "sum")
+
+            st = sched.spawn(client, "client")
+            res = sched.run()
+        out.digest = sched.digest()
+        out.sim_time = float(sched.steps)
+        out.nontrivial = sched.probes.get("parallel_items", 0) > 0
+        if st.exc is not None:
+            return out.violate("get_raised", f"nested threaded.get: {type(st.exc).__name__}: {st.exc}",
+                               entry="threads-nested")
+        if res != "ok":
+            return out.violate("no_termination", f"nested threaded.get with {nouter} outer tasks and a default "
+                                                 f"pool of {cpu}: {res} {sched.deadlock}", entry="threads-nested")
+        want = sum(j + 2 for j in range(nouter))
+        if box.get("v") != want:
+            return out.violate("wrong_value", f"nested threaded.get returned {box.get('v')!r}, expected {want}",
+                               entry="threads-nested")
+    finally:
+        dt.ContextAwareThreadPoolExecutor, dt.CPU_COUNT, dt.default_pool, dt.main_thread = saved
+        dt.pools.clear()
+        dt.pools.update(saved_pools)
+    return out
+
+
 def run_one(tape, cfg):
     out = Outcome()
     if use_threads(tape, cfg):
+        if tape.chance(1, 5, "nested"):
+            return run_nested(tape, cfg, out)
         return run_one_threads(tape, cfg, out)
     spec, req_json, request, rcfg = gen_workload(tape, cfg)
     vals, calls, deps = gg.evaluate(spec)
